@@ -49,11 +49,17 @@ def forms_over(T, depth, lean=False):
     yield ("cat", y, T)
     yield ("cat", T)
     yield ("cat", z, T, z)
+    if w >= 3:
+        # two bit-disjoint windows of the SAME storage in one assignment (one write per window inside one delta cycle)
+        yield ("cat", ("slice", T, 0, 1, None), ("slice", T, 2, w, None))
+        yield ("cat", ("slice", T, 2, w, None), ("slice", T, 0, 1, None))
+        yield ("cat", ("idx", T, w - 1), y, ("slice", T, 0, w - 2, None))
     for width in range(0, w + 2):
         if lean and width not in (0, 1, 2, w + 1):
             continue
         yield ("bsel", T, o, width)
         yield ("bsel", T, z, width)          # zero-width offset
+        yield ("bsel", T, i_, width)        # offset narrower than the target: 2**len(offset) < len(target)
         if width:
             yield ("wsel", T, o, width)
             yield ("wsel", T, i_, width)
@@ -74,6 +80,20 @@ def forms_over(T, depth, lean=False):
         yield ("ror", T, k)
 
 
+def _static(T):
+    """target built from signals / slices / indices / rotations / Cat only: its bit map does not depend on any offset or index"""
+    k = T[0]
+    if k == "s":
+        return True
+    if k in ("slice", "idx", "rol", "ror"):
+        return _static(T[1])
+    if k == "cat":
+        return all(_static(p) for p in T[1:])
+    if k == "u":
+        return _static(T[2])
+    return False
+
+
 def _wellformed(T):
     """operators applied to an Array proxy are forwarded to its *elements* (docs: Arrays), so above an array
     element only Value-level constructors (Cat, another Array) keep the meaning of this grammar; and one
@@ -86,11 +106,19 @@ def _wellformed(T):
         return False
     if k == "cat":
         seen = set()
+        static_bits = set()
         for p in T[1:]:
             lv = S._all_leaves(p)
             if lv & seen:
-                return False
+                # the same storage may appear twice only through statically bit-disjoint slices (Cat(x[0:1], x[2:3]))
+                if not (_static(p) and all(_static(q) for q in T[1:])):
+                    return False
             seen |= lv
+            if _static(p):
+                bm = [e for e in S.bitmap(p, {}) if e is not None]
+                if static_bits & set(bm):
+                    return False
+                static_bits |= set(bm)
     tgt_subs = {"slice": [T[1]], "idx": [T[1]], "cat": list(T[1:]), "bsel": [T[1]], "wsel": [T[1]],
                 "arr": list(T[2:]), "u": [T[2]] if k == "u" else [], "rol": [T[1]], "ror": [T[1]]}[k]
     return all(_wellformed(x) for x in tgt_subs)
@@ -379,6 +407,8 @@ def run(rep):
     else:
         for tr in itertools.product([(0, False), (2, False), (2, True)], repeat=3):
             tasks.append(("r", ("d2", 2, tr)))
+    for pair in itertools.product(G.shapes(2), repeat=2):
+        tasks.append(("r", ("d2c", 3, pair + ((0, False),))))
     tasks.append(("c", None))
     tasks = rotate(tasks, rep.seed)
     for part in pmap(_dispatch, tasks, rep.procs):
